@@ -17,6 +17,16 @@ import re
 from .. import common as C
 from ..flow import Flow
 
+# Which variant of the two repaired behaviours /repo is in (Model/Grammar.v takes them as a parameter; the
+# theorems hold for both).  Flip to True when the corresponding patch has been committed to /repo:
+#   fix_bump  <-> .cache/prompts/C23-1-fix.diff      (Parser::bump skips trivia; closes C23-1 and C24-1)
+#   fix_loops <-> .cache/prompts/C23-loops-fix.diff  (list loops stop when nothing was consumed; closes C23-2/3/4)
+MODEL_VARIANT = {"fix_bump": True, "fix_loops": True}   # repo fixes d7fa2e4, 3c3ff74
+# (for experiments on a patched scratch tree: C23_MODEL_VARIANT=ff|fu|uf|uu overrides, f = fixed)
+_ov = os.environ.get("C23_MODEL_VARIANT")
+if _ov and len(_ov) == 2:
+    MODEL_VARIANT = {"fix_bump": _ov[0] == "f", "fix_loops": _ov[1] == "f"}
+
 REDUCED = ["a", "1", "(", ")", "{", "}", "[", "]", ".", ",", ":", ";", "=", "+", "if", "^"]
 VOCAB = REDUCED + ["as", "else", "while", "loop", "switch", "in", "distinct", "mut", "extern", "struct", "enum",
                    "comptime", "return", "break", "continue", "defer", "try", "catch", "true", "1.5", "0x1f", "0b1",
@@ -293,6 +303,54 @@ def run(tier, seed):
                               "implementation_tree": (real_tree or "PANIC")[:600]}
         fl.stream("Sink model vs real tree on real events (balanced, counts, lossless, crash prediction)",
                   len(model_in), mdiffs, mfirst)
+        # ---- correspondence: the whole-grammar model (Model/Grammar.v) produces the real event list ----------
+        fb = "f" if MODEL_VARIANT["fix_bump"] else "u"
+        flp = "f" if MODEL_VARIANT["fix_loops"] else "u"
+        g_in = []
+        g_idx = []
+        cap = 45000 if quick else 120000
+        for k, ((stream, t, m, full), r) in enumerate(zip(meta, impl)):
+            if not full or r is None or r.startswith("!") or len(g_in) >= cap:
+                continue
+            if stream.startswith("exhaustive") and len(t.split()) >= 4:
+                continue            # the bulk of the enumeration is covered by the Sink stream and the oracle
+            parts = r.split(" | ")
+            if len(parts) < 3:
+                continue
+            hung = parts[1].startswith("PANIC-IN-PARSER:VERIF-NO-PROGRESS")
+            if parts[1].startswith("PANIC-IN-PARSER") and not hung:
+                continue
+            if hung:
+                # the real parser never terminates here: the model (unfixed loops) must exhaust its LINEAR fuel
+                g_in.append("G %s %s %s | %s" % (m, fb, flp, parts[2]))
+                g_idx.append((k, "HUNG", "", False))
+                continue
+            rerr = ""
+            if r.startswith("ok "):
+                ff = r.split(" | ")[0].split(" ")
+                rerr = ff[7] if len(ff) > 7 and ff[7] != "-" else ""
+            g_in.append("G %s %s %s | %s" % (m, fb, flp, parts[2]))
+            g_idx.append((k, parts[1].strip(), rerr, r.startswith("ok ")))
+        g_out = C.run_lines([drv], g_in, indexed=False)
+        gd = 0
+        gfirst = None
+        hung_pred = 0
+        for (k, rev, rerr, okr), o in zip(g_idx, g_out):
+            st, _, rest = o.partition(" | ")
+            mev, _, merr = rest.partition(" | ")
+            if rev == "HUNG":
+                good = st == "FUEL"
+                hung_pred += 1 if good else 0
+            else:
+                good = st == "ok" and mev.strip() == rev and ((not okr) or len(rerr) >= 3990 or merr.strip() == rerr)
+            if not good:
+                gd += 1
+                if gfirst is None:
+                    gfirst = {"input": meta[k][1][:500], "entry": meta[k][2], "model": o[:700],
+                              "implementation_events": rev[:500], "implementation_errors": rerr[:200]}
+        fl.stream("whole-grammar model vs real parser: event list and error positions", len(g_in), gd, gfirst)
+        v.coverage["grammar_model_variant"] = dict(MODEL_VARIANT)
+        v.coverage["non_termination_predicted_by_grammar_model"] = hung_pred
         for name, st in streams.items():
             fl.stream(name, st["cases"], 0, None)
         v.coverage["evaluations"] += len(lines)
